@@ -74,6 +74,10 @@ class Ctx:
         res = harness.run_sim(argv, files, chooser, capacity=cap, feeder=feeder, keep_log=self.keep_log or parallel,
                               env=env)
         if parallel:
+            self.probes["env_start_method_" + env["start_method"]] = self.probes.get("env_start_method_" + env["start_method"], 0) + 1
+        if env["tty"]:
+            self.probes["env_stderr_is_terminal"] = self.probes.get("env_stderr_is_terminal", 0) + 1
+        if parallel:
             self.sched[name] = list(res.choices)
             self.digests.append(res.log_digest)
             self.abstract.append(abstract_schedule(res.log))
@@ -453,6 +457,10 @@ def build_evidence(prop_mod, seed, tier, judged, skipped, harness_errors, known_
             samples.append(r["sample"])
         n_viol += len(r["violations"])
     evaluated = sum(1 for r in judged if not r["discard"])
+    if probes.get("env_emfile"):
+        faults["emfile_on_open (environment)"] = probes["env_emfile"]
+    if probes.get("compressor_pipe_inherited_at_close"):
+        faults["close_waits_for_forked_holders_of_compressor_pipe (environment)"] = probes["compressor_pipe_inherited_at_close"]
     cov = {
         "evaluations": evaluated,
         "distinct_nontrivial": len(keys),
@@ -500,11 +508,15 @@ REAL_COMPONENTS = [
     "pickle for every message and for process state",
 ]
 STUB_COMPONENTS = [
-    "OS processes -> parked threads with pickled (spawn-style) state",
+    "OS processes -> parked threads with pickled state and a per-process image of interpreter-global state "
+    "(module globals, class attributes, function defaults of cutadapt), swapped at every context switch; "
+    "start method fork or spawn per case",
     "pipes, need-work queue (with feeder stage), connection.wait, active_children, terminate, join -> kernel objects",
-    "file system -> in-memory SimFS below xopen; builtin open() in cli (for --json)",
-    "sys.stdin/stdout/stderr -> per-run buffers",
-    "xopen compression threads / external pigz -> forced threads=0 (in-process codec)",
+    "file system -> a private tmpfs directory per simulator process below the xopen seam; one open() per case may fail with EMFILE; "
+    "resource limits -> a fake",
+    "sys.stdin/stdout/stderr -> per-run buffers; stderr is a terminal in some cases (Progress instead of DummyProgress)",
+    "xopen compression threads / external pigz, xz, zstd -> in-process codec; the pipe to the external process "
+    "(close waits until forked children that inherited it have exited) is modelled",
     "wall clock -> logical counter",
 ]
 
